@@ -160,6 +160,7 @@ func ExecPlan(t *testing.T, eng Engine, p *Plan, work string) (o *Outcome) {
 			start := time.Now()
 			s := simcore.NewSched(p.SchedSeed, p.Tape)
 			s.LockYieldPermille = p.LockYield
+			s.UnlockYieldPermille = p.UnlockYield
 			s.StickyPermille = p.Sticky
 			s.Pct, s.PctHorizon = p.Pct, p.PctHorizon
 			rc.Sched = s
